@@ -143,6 +143,11 @@ def fam_collections(ctx, rng):
     pool3 = ['Polyline3D', 'Face3D', 'Polyface3D', 'Mesh3D']
     pool2 = ['Polygon2D', 'Polyline2D', 'Mesh2D']
     objs = [Bd.make(rng, rng.choice(pool3 if d3 else pool2)) for _ in range(n)]
+    if n > 1 and rng.random() < 0.5:
+        # concentric members, smallest first: every later member sticks out of the running hull on BOTH sides of every axis
+        c0 = objs[0].center
+        objs = [o.move(c0 - o.center) for o in objs]
+        objs.sort(key=lambda o: (o.max.x - o.min.x) + (o.max.y - o.min.y))
     ang = rng.choice([0.0, rng.uniform(0, 2 * math.pi)])
     desc = {'objects': [o.to_dict() for o in objs], 'axis_angle': ang, '3d': d3}
     ctx.count('collection.%s' % ('3d' if d3 else '2d'), key=(n, ang != 0), sample={'n': n, 'axis_angle': ang})
